@@ -1,6 +1,6 @@
 SPECIFICATION Spec
 CONSTANTS
-  Kinds = {"vv", "vr", "mem", "inv", "vrbig"}
+  Kinds = {"vv", "vr", "mem", "inv", "vrbig", "stk"}
   MaxStrLen = 100
   Forks = {"Frontier", "Byzantium", "London", "Cancun"}
   WorkBound = 8192
